@@ -116,7 +116,7 @@ def family(tier):
     deg("1x1 unitary", lambda c: c.add(lw.Unitary(np.array([[1j]])), 2))
     deg("phase 0", lambda c: c.ps(1, 0))
     # mode numbers given as numpy integers / integral floats: if the API accepts the call, the circuit must be drawable like any other
-    for tl, T in (("np.int64", np.int64), ("float", float)):
+    for tl, T in (("np.int64", np.int64), ("float", float), ("np.float32", np.float32)):
         for cl, call in (("ps", lambda c, T: c.ps(T(1), 0.5)), ("bs", lambda c, T: c.bs(T(0), T(2))), ("loss", lambda c, T: c.loss(T(1), 0.2)),
                          ("barrier", lambda c, T: c.barrier([T(0), T(1)])), ("mode_swaps", lambda c, T: c.mode_swaps({T(0): T(1), T(1): T(0)})),
                          ("herald", lambda c, T: c.herald(0, T(2))), ("add", lambda c, T: c.add(lw.Unitary(lw.random_unitary(2, seed=4)), T(1)))):
